@@ -7,7 +7,7 @@ use itertools::Itertools;
 use state::type_variable::TypeVariable;
 
 use crate::{
-    constant::BYTE_SIZE_BITS,
+    constant::{BYTE_SIZE_BITS, WORD_SIZE_BITS},
     error::{
         container::Locatable,
         unification::{Error, Errors, Result},
@@ -381,9 +381,25 @@ impl TypeChecker {
                 for Span { typ, offset, .. } in types {
                     match self.abi_type_for_impl(typ, seen_exprs, ParentType::Packed)? {
                         AbiValue::Packed(xs) => {
-                            pairs.extend(
-                                xs.into_iter().map(|(ty, ofs)| (ty, ofs.saturating_add(offset))),
-                            );
+                            // The elements of a nested encoding are positioned relative to the start
+                            // of this span, and have to lie inside the same word as it does. If they
+                            // do not, the nested encoding cannot describe this span and all we know
+                            // is that there is something at its position
+                            let start_in_word = offset % WORD_SIZE_BITS;
+                            let fits = xs.iter().all(|(ty, ofs)| {
+                                let start = start_in_word.saturating_add(*ofs);
+                                start < WORD_SIZE_BITS
+                                    && ty
+                                        .bit_width()
+                                        .map_or(true, |w| start.saturating_add(w) <= WORD_SIZE_BITS)
+                            });
+                            if fits {
+                                pairs.extend(
+                                    xs.into_iter().map(|(ty, ofs)| (ty, ofs.saturating_add(offset))),
+                                );
+                            } else {
+                                pairs.push((AbiType::Any, offset));
+                            }
                         }
                         AbiValue::Type(ty) => pairs.push((ty.clone(), offset)),
                     }
